@@ -284,7 +284,7 @@ func (c *Config) GetHTTPClient(ctx context.Context) *retryablehttp.Client {
 
 func (c *Config) GetSecretsHasher(ctx context.Context) Hasher {
 	if c.ClientSecretsHasher == nil {
-		c.ClientSecretsHasher = &BCrypt{Config: c}
+		return &BCrypt{Config: c}
 	}
 	return c.ClientSecretsHasher
 }
@@ -368,7 +368,7 @@ func (c *Config) GetAllowedPrompts(_ context.Context) []string {
 // GetScopeStrategy returns the scope strategy to be used. Defaults to glob scope strategy.
 func (c *Config) GetScopeStrategy(_ context.Context) ScopeStrategy {
 	if c.ScopeStrategy == nil {
-		c.ScopeStrategy = WildcardScopeStrategy
+		return WildcardScopeStrategy
 	}
 	return c.ScopeStrategy
 }
@@ -376,7 +376,7 @@ func (c *Config) GetScopeStrategy(_ context.Context) ScopeStrategy {
 // GetAudienceStrategy returns the scope strategy to be used. Defaults to glob scope strategy.
 func (c *Config) GetAudienceStrategy(_ context.Context) AudienceMatchingStrategy {
 	if c.AudienceMatchingStrategy == nil {
-		c.AudienceMatchingStrategy = DefaultAudienceMatchingStrategy
+		return DefaultAudienceMatchingStrategy
 	}
 	return c.AudienceMatchingStrategy
 }
